@@ -10,7 +10,7 @@
 -- the instantiations the executable reference verifier `Model.RefVerifier.refVerify` covers:
 --     64-bit field with Rp64_256, 64-bit field with RpJive64_256, 62-bit field with Rp62_248 (`InstOk`),
 --     extension degree 1-3, DefaultRandomCoin, every AIR description of the data-driven family of
---     harness/src/genair.rs with or without auxiliary segment (no Lagrange kernel column / GKR proof).
+--     harness/src/genair.rs with or without auxiliary segment (with or without Lagrange kernel column; the GKR verifier is the family's dummy one).
 -- `verify_whole_safe_partial`: for EVERY byte string, every public input vector and acceptance policy,
 -- `Proof::from_bytes` followed by `verify` RETURNS - accept, a parse error or a `VerifierError` value - or it is one
 -- of the panics the REAL code has (`RealPanic`): the AIR constructor / the AIR's callbacks and
@@ -21,8 +21,8 @@
 -- `refVerify` is tied to the real `verify` by the `refv` op lines (verdict kind incl. `panic` compared on identical
 -- bytes): harness/src/bin/c03.rs (honest proofs and all of C03's mutant families) and harness/src/bin/c06.rs (a
 -- sample of C06's hostile mutants of the base configurations with a Rescue hasher).
--- STILL FUZZ-ONLY after the channel: the BLAKE3 / SHA3 hashers, the 128-bit field, AIRs with a Lagrange kernel column
--- and their GKR proof, the proven-security policy (floating point); and the allocation bound of part 1 is not
+-- STILL FUZZ-ONLY after the channel: the BLAKE3 / SHA3 hashers, the 128-bit field, GKR verifiers other than the
+-- family's dummy one, the proven-security policy (floating point); and the allocation bound of part 1 is not
 -- extended to the rest of `verify` (the model has no allocation counter there; the harness's counting allocator does).
 import WinterProofs.C06Parser
 import WinterProofs.RefVerifierTotal
